@@ -35,6 +35,16 @@ type GenOpts struct {
 	// PreferObjectDup makes duplicated selections favour object fields (whose
 	// sub-selections then have to be merged).
 	PreferObjectDup bool
+	// PConflictExcluded adds, below the root, a selection that shares its
+	// response key with a sibling but names another field (or other arguments)
+	// and is excluded by its directive. With the node deleted the query is an
+	// ordinary one. Doc.ConflictExcluded counts them.
+	PConflictExcluded float64
+	// PCloneDirs selects an object field a second time under a fresh alias with
+	// a copy of its sub-selection whose directives are drawn afresh: the same
+	// objects are reached twice, with textually equal selections that differ in
+	// what their directives exclude. Doc.ClonedDirs counts them.
+	PCloneDirs float64
 	// PForeign adds, inside Node and Leaf selection sets, spreads of fragments
 	// typed on the other of the two object types that select only fields both
 	// types have (id, color, __typename). One named fragment is then shared by
@@ -278,6 +288,70 @@ func (g *generator) namedFrag(typ string, depth int) *Frag {
 	return &Frag{Named: fd.Name, On: typ, Set: fd.Set, Dirs: g.dirs()}
 }
 
+// excluding returns one directive that excludes its node.
+func (g *generator) excluding() []Dir {
+	name, b := "skip", true
+	if g.r.Intn(2) == 0 {
+		name, b = "include", false
+	}
+	if g.r.Intn(3) == 0 {
+		return []Dir{{Name: name, Val: g.variable("Boolean", b)}}
+	}
+	return []Dir{{Name: name, Val: Value{Lit: b}}}
+}
+
+// conflictTwin returns an excluded selection with f's response key that cannot
+// be merged with f: another field of t, or f's field with other arguments.
+func (g *generator) conflictTwin(t *TypeDesc, f *Field, depth int) *Field {
+	for tries := 0; tries < 12; tries++ {
+		fd := t.Fields[t.Order[g.r.Intn(len(t.Order))]]
+		if (g.o.NoUnions && fd.Ret.Base().Kind == KUnion) || g.o.AvoidTypes[fd.Ret.Base().Name] {
+			continue
+		}
+		if !fd.IsLeaf() && depth <= 1 {
+			continue
+		}
+		tw := &Field{Alias: f.Key(), Name: fd.Name, Args: g.args(fd), Twin: true}
+		if fd.Name == f.Name && argsText(tw.Args) == argsText(f.Args) {
+			continue
+		}
+		if !fd.IsLeaf() {
+			tw.Sub = g.set(fd.Ret.Base().Name, depth-1)
+		}
+		tw.Dirs = g.excluding()
+		return tw
+	}
+	return nil
+}
+
+// cloneSet copies a selection set, drawing the directives of its nodes afresh.
+func (g *generator) cloneSet(s *SelSet) *SelSet {
+	if s == nil {
+		return nil
+	}
+	out := &SelSet{}
+	for i, it := range s.Items {
+		plain := i == 0 && g.o.KeepPlainLeaf
+		switch {
+		case it.Field != nil:
+			f := &Field{Alias: it.Field.Alias, Name: it.Field.Name, Args: it.Field.Args, Sub: g.cloneSet(it.Field.Sub), Twin: it.Field.Twin}
+			switch {
+			case plain:
+			case it.Field.Twin, g.r.Intn(3) == 0:
+				f.Dirs = it.Field.Dirs // unchanged (an excluded twin has to stay excluded)
+			default:
+				f.Dirs = g.dirs()
+			}
+			out.Items = append(out.Items, SelItem{Field: f})
+		case it.Frag.Named != "":
+			out.Items = append(out.Items, SelItem{Frag: &Frag{Named: it.Frag.Named, On: it.Frag.On, Set: it.Frag.Set, Dirs: g.dirs()}})
+		default:
+			out.Items = append(out.Items, SelItem{Frag: &Frag{On: it.Frag.On, Set: g.cloneSet(it.Frag.Set), Dirs: g.dirs()}})
+		}
+	}
+	return out
+}
+
 // commonFrag returns a fragment (named or inline) that selects only fields
 // Node and Leaf share; its type condition is either of the two.
 func (g *generator) commonFrag(typ string) *Frag {
@@ -390,11 +464,35 @@ func (g *generator) set(typ string, depth int) *SelSet {
 				dup.Sub = g.set(fd.Ret.Base().Name, depth-1)
 			}
 			s.Items = append(s.Items, SelItem{Field: dup})
+		case depth > 1 && len(fields) > 0 && typ != "Query" && g.p(g.o.PCloneDirs):
+			var prev *Field
+			for tries := 0; tries < 6 && prev == nil; tries++ {
+				if c := fields[g.r.Intn(len(fields))]; c.Sub != nil {
+					prev = c
+				}
+			}
+			if prev == nil {
+				break
+			}
+			g.nAlias++
+			cl := &Field{Alias: fmt.Sprintf("%s_c%d", prev.Name, g.nAlias), Name: prev.Name, Args: prev.Args, Sub: g.cloneSet(prev.Sub), Dirs: g.dirs()}
+			s.Items = append(s.Items, SelItem{Field: cl})
+			g.doc.ClonedDirs++
 		default:
 			f := g.field(t, depth, false)
 			f.Dirs = g.dirs()
 			fields = append(fields, f)
 			s.Items = append(s.Items, SelItem{Field: f})
+			if typ != "Query" && f.Name != "__typename" && g.p(g.o.PConflictExcluded) {
+				if tw := g.conflictTwin(t, f, depth); tw != nil {
+					if g.r.Intn(2) == 0 {
+						s.Items = append(s.Items, SelItem{Field: tw})
+					} else {
+						s.Items = append(s.Items[:len(s.Items)-1], SelItem{Field: tw}, SelItem{Field: f})
+					}
+					g.doc.ConflictExcluded++
+				}
+			}
 		}
 	}
 	return s
@@ -404,7 +502,7 @@ func (g *generator) set(typ string, depth int) *SelSet {
 func topFields(s *SelSet) []*Field {
 	var out []*Field
 	for _, it := range s.Items {
-		if it.Field != nil && it.Field.Name != "__typename" {
+		if it.Field != nil && it.Field.Name != "__typename" && !it.Field.Twin {
 			out = append(out, it.Field)
 		}
 	}
